@@ -392,6 +392,12 @@ impl SanitizerConfig {
 
                 // Check if the attribute is allowed.
                 if whitelist_attrs {
+                    // An attribute in a namespace, like `xlink:href` in foreign content, is not the
+                    // allowed attribute of the same local name.
+                    if !attr.name.ns.is_empty() {
+                        return Some(AttributeAction::Remove(attr.to_owned()));
+                    }
+
                     let list_allowed = list_allow_attrs.is_some_and(|set| set.contains(attr_name));
                     let mode_allowed = mode_allow_attrs.is_some_and(|set| set.contains(attr_name));
 
